@@ -184,6 +184,10 @@ def check_case(src, plan):
     if not plan:
         return fails
     g, ins = insert(f, plan)
+    if not ins:
+        # the plan names no position of THIS function (e.g. a brace-less slot the function does not have -- a shrunk case replayed on
+        # another version of the code): nothing was inserted, there is nothing to judge
+        return fails
     kinds = sorted({type(n).__name__ for n in ins})
     KINDS.update(kinds)
     loopy = any(t in UNSUP_LOOPY for _, _, t in plan)
